@@ -37,6 +37,7 @@ import RtoscModel.Proofs.PrettyTokArray
 import RtoscModel.Proofs.PrettyRunConst
 import RtoscModel.Proofs.PrettyRunInt
 import RtoscModel.Proofs.PrettyRunsExtItems
+import RtoscModel.Proofs.PrettyRunsExtConv
 import RtoscModel.ArgVal.Expand
 import RtoscModel.Generated.PrettyConst
 namespace Rtosc.Pretty
@@ -733,7 +734,10 @@ theorem range_roundtrip_int (opt : POpt) (hc : opt.compress = true) (a d : Int) 
     a `crun` and the whole arithmetic run for an `irun` (so the runs are maximal: the value behind a
     run does not continue it); the values are scalars of the property's domain; an arithmetic run
     satisfies the overflow guards of fixes C10-11 / C10-15 (`hrange` incl. the step behind the last
-    element, `hwidth`) and its count fits an `int32_t`. -/
+    element, `hwidth`) and its count fits an `int32_t`.  `PrinterSegments.crun_of_next` and
+    `PrinterSegments.irun_of_next` below derive the two run conditions from the values: the value
+    behind a constant run is not identical to the run's value, the value behind an arithmetic run is
+    not its continuation `a + n·d`. -/
 inductive PrinterSegments (opt : POpt) : List RSeg → Prop
   | nil : PrinterSegments opt []
   | tok (c : Cell) (segs : List RSeg) : ScalarInDomain opt c → ¬ MidnightTime c →
@@ -762,6 +766,27 @@ theorem PrinterSegments.segmented {opt : POpt} (hopt : OptOK opt) {segs : List R
     exact .crun n c segs hs.1 hs.2 h5 h2 hcv ih
   | irun a d n segs h5 hd hr hw h32 hcv _ ih =>
     exact .irun a d n segs (runHyp_mk a d n h5 hd hr hw h32) hcv ih
+
+/-- a constant run is a segment when the value behind it (if any) is not identical to the run's
+    value (`range_args_identical`; for the types of the domain: a different type or value) -/
+theorem PrinterSegments.crun_of_next {opt : POpt} (hopt : OptOK opt) (hc : opt.compress = true) (n : Nat) (c : Cell)
+    (segs : List RSeg) (hd : ScalarInDomain opt c) (hm : ¬ MidnightTime c) (h5 : 5 ≤ n) (h2 : n ≤ 2147483647)
+    (hnext : cellsAll segs = [] ∨ ∀ more, rangeArgsIdentical (c :: more) (cellsAll segs) = .ok false)
+    (hrest : PrinterSegments opt segs) : PrinterSegments opt (.crun n c :: segs) :=
+  .crun n c segs hd hm h5 h2
+    (convertToRange_crun_of_next opt hc c (isScalar_of_domain opt c hd) (selfIdentical_of_domain opt c hd) n h5
+      (cellsAll segs) (hrest.segmented hopt).scalars hnext) hrest
+
+/-- an int32 arithmetic run is a segment when the value behind it (if any) is not its continuation -/
+theorem PrinterSegments.irun_of_next {opt : POpt} (hopt : OptOK opt) (hc : opt.compress = true) (a d : Int) (n : Nat)
+    (segs : List RSeg) (h5 : 5 ≤ n) (hd : d ≠ 0)
+    (hr : ∀ k : Nat, k ≤ n → -2147483648 ≤ a + (k : Int) * d ∧ a + (k : Int) * d ≤ 2147483647)
+    (hw : ((n : Int) - 1) * d.natAbs ≤ 2147483647) (h32 : (d = 1 ∨ d = -1) → (n : Int) ≤ 2147483647)
+    (hnext : cellsAll segs = [] ∨ eqSingle [Cell.int .i (a + (n : Int) * d)] (cellsAll segs) = .ok false)
+    (hrest : PrinterSegments opt segs) : PrinterSegments opt (.irun a d n :: segs) :=
+  .irun a d n segs h5 hd hr hw h32
+    (convertToRange_irun_of_next opt hc (runHyp_mk a d n h5 hd hr hw h32) (cellsAll segs)
+      (hrest.segmented hopt).scalars hnext) hrest
 
 /-- **print_scan_roundtrip_runs_partial** (tier 3, "constant and arithmetic runs … compression on",
     "compressed ranges being compared by their expansion"): the full statement for every list of
@@ -891,6 +916,20 @@ example : PrinterSegments defaultOpt exRunSegs := by
   refine .tok _ _ trivial (by simp [MidnightTime]) (by decide +kernel) ?_
   refine .irun _ _ _ _ (by decide) (by decide) (by intro k hk; omega) (by decide) (fun _ => by decide) (by decide +kernel) ?_
   exact .nil
+
+/-- the same with the run conditions stated on the values: `7 7 7 7 7 8 9 10 11 12 13 "x"` -/
+example : PrinterSegments defaultOpt [.crun 5 (.int .i 7), .irun 8 1 6, .tok (.str .s (some (lit "x")))] := by
+  have hopt : OptOK defaultOpt := by unfold OptOK defaultOpt; simp
+  refine .crun_of_next hopt rfl _ _ _ (by unfold ScalarInDomain; omega) (by simp [MidnightTime]) (by decide) (by decide)
+    (Or.inr (fun more => by
+      have e : cellsAll [RSeg.irun 8 1 6, RSeg.tok (.str .s (some (lit "x")))] =
+          Cell.int .i 8 :: [.int .i 9, .int .i 10, .int .i 11, .int .i 12, .int .i 13, .str .s (some (lit "x"))] := by
+        decide +kernel
+      rw [e]
+      simp [rangeArgsIdentical, eqSingle_int, bind, Except.bind, pure, Except.pure])) ?_
+  refine .irun_of_next hopt rfl _ _ _ _ (by decide) (by decide) (by intro k hk; omega) (by decide) (fun _ => by decide)
+    (Or.inr (by decide +kernel)) ?_
+  exact .tok _ _ (by show ∀ b ∈ lit "x", StrByteOK b; decide +kernel) (by simp [MidnightTime]) (by decide +kernel) .nil
 
 example : (printArgVals defaultOpt (cellsAll exRunSegs) ⟨[], 0⟩).map (fun r => (r.1.out, r.2)) =
     .ok (lit "1 1 ... 6 5x\"ab\" 3 10 8 ... 2 true -4 ... -10", 45) := by
